@@ -66,7 +66,7 @@ func TestC19(t *testing.T) {
 	if repo == "" {
 		repo = "/repo"
 	}
-	n := e.Pick(320, 6000)
+	n := e.Pick(320, 12000)
 	vlib.RunCases(t, "C19", "dispatch", n, func(c *vlib.Case) vlib.Result {
 		var res vlib.Result
 		rng := c.Rng
